@@ -25,6 +25,7 @@ def showEv : Ev → String
   | .nestedEnd => ")"
   | .done => "END"
   | .err e => showErr e
+  | .errAt e n => s!"{showErr e}@{n}"
   | .stuck => "STUCK"
 
 def parseList (s : String) : Option (List Bytes) :=
